@@ -27,7 +27,7 @@ if (row[0].dot (row[1].cross (row[2])) < 0) for i: { scl[i] *= -1; row[i] *= -1;
 mat[i][0..2] = row[i];   scl *= maxVal;   return true;                                   -- `ear44`
 ```
 `return false` (or `throw std::domain_error` when `exc`) is `none`.  `Vec::length()` is a parameter
-`len` (the theorems instantiate it with the extracted `Gen.V3.length tmin sqrt`, the driver with a
+`len` (the theorems instantiate it with the extracted `Gen.V3.length tmin tmax sqrt`, the driver with a
 `Float` transcription of `length/lengthTiny`).  Every arithmetic expression keeps the C++ operand
 order, so the model evaluated at `Float` reproduces the compiled code bit for bit
 (harness/corr/c12_corr.cpp vs lean/Driver/SHRT.lean, every run).
@@ -201,12 +201,12 @@ def ear44 (tmax : α) (len : V3 α → α) (mat : M44 α) : Option (Res3 α) :=
              f.r2.x, f.r2.y, f.r2.z, mat.x23, mat.x30, mat.x31, mat.x32, mat.x33⟩,
             V3.mulS f.scl maxVal, f.shr⟩
 
-/-! ## `Float`-executable transcriptions of `Vec2::length` / `Vec3::length` (ImathVec.h 1558-1592, 2035-2073),
+/-! ## `Float`-executable transcriptions of `Vec2::length` / `Vec3::length` (ImathVec.h; `if (length2 < 2*min || length2 > max) return lengthTiny ();`),
 used by the driver only (`==` is IEEE `==`); the theorems use the extracted `Gen.V2.length` / `Gen.V3.length`. -/
 
-def lengthV2 [OfNat α 2] (tmin : α) (sqrt : α → α) (v : V2 α) : α :=
+def lengthV2 [OfNat α 2] (tmin tmax : α) (sqrt : α → α) (v : V2 α) : α :=
   let length2 := dot2 v v
-  if length2 < 2 * tmin then
+  if length2 < 2 * tmin || tmax < length2 then
     let absX := sabs v.x
     let absY := sabs v.y
     let mx := absX
@@ -218,9 +218,9 @@ def lengthV2 [OfNat α 2] (tmin : α) (sqrt : α → α) (v : V2 α) : α :=
       mx * sqrt (absX * absX + absY * absY)
   else sqrt length2
 
-def lengthV3 [OfNat α 2] (tmin : α) (sqrt : α → α) (v : V3 α) : α :=
+def lengthV3 [OfNat α 2] (tmin tmax : α) (sqrt : α → α) (v : V3 α) : α :=
   let length2 := dot3 v v
-  if length2 < 2 * tmin then
+  if length2 < 2 * tmin || tmax < length2 then
     let absX := if 0 ≤ v.x then v.x else -v.x
     let absY := if 0 ≤ v.y then v.y else -v.y
     let absZ := if 0 ≤ v.z then v.z else -v.z
@@ -246,22 +246,22 @@ variable {α : Type} [Add α] [Sub α] [Mul α] [Div α] [Neg α] [LT α] [LE α
   [DecidableEq α] [OfNat α 0] [OfNat α 1] [OfNat α 2]
 
 def ear33Flag (tmin tmax : α) (sqrt : α → α) (m : M33 α) : α :=
-  match ear33 tmax (Gen.V2.length tmin sqrt) m with | some _ => 1 | none => 0
+  match ear33 tmax (Gen.V2.length tmin tmax sqrt) m with | some _ => 1 | none => 0
 def ear33Mat (tmin tmax : α) (sqrt : α → α) (m : M33 α) : M33 α :=
-  match ear33 tmax (Gen.V2.length tmin sqrt) m with | some r => r.m | none => m
+  match ear33 tmax (Gen.V2.length tmin tmax sqrt) m with | some r => r.m | none => m
 def ear33Scl (tmin tmax : α) (sqrt : α → α) (m : M33 α) : V2 α :=
-  match ear33 tmax (Gen.V2.length tmin sqrt) m with | some r => r.scl | none => ⟨0, 0⟩
+  match ear33 tmax (Gen.V2.length tmin tmax sqrt) m with | some r => r.scl | none => ⟨0, 0⟩
 def ear33Shr (tmin tmax : α) (sqrt : α → α) (m : M33 α) : α :=
-  match ear33 tmax (Gen.V2.length tmin sqrt) m with | some r => r.shr | none => 0
+  match ear33 tmax (Gen.V2.length tmin tmax sqrt) m with | some r => r.shr | none => 0
 
 def ear44Flag (tmin tmax : α) (sqrt : α → α) (m : M44 α) : α :=
-  match ear44 tmax (Gen.V3.length tmin sqrt) m with | some _ => 1 | none => 0
+  match ear44 tmax (Gen.V3.length tmin tmax sqrt) m with | some _ => 1 | none => 0
 def ear44Mat (tmin tmax : α) (sqrt : α → α) (m : M44 α) : M44 α :=
-  match ear44 tmax (Gen.V3.length tmin sqrt) m with | some r => r.m | none => m
+  match ear44 tmax (Gen.V3.length tmin tmax sqrt) m with | some r => r.m | none => m
 def ear44Scl (tmin tmax : α) (sqrt : α → α) (m : M44 α) : V3 α :=
-  match ear44 tmax (Gen.V3.length tmin sqrt) m with | some r => r.scl | none => ⟨0, 0, 0⟩
+  match ear44 tmax (Gen.V3.length tmin tmax sqrt) m with | some r => r.scl | none => ⟨0, 0, 0⟩
 def ear44Shr (tmin tmax : α) (sqrt : α → α) (m : M44 α) : V3 α :=
-  match ear44 tmax (Gen.V3.length tmin sqrt) m with | some r => r.shr | none => ⟨0, 0, 0⟩
+  match ear44 tmax (Gen.V3.length tmin tmax sqrt) m with | some r => r.shr | none => ⟨0, 0, 0⟩
 
 end adapters
 
